@@ -23,7 +23,7 @@ from vf.fakes3 import client_error
 from vf.interpose import GlobalPatch, Interposer, ModuleProxy
 from vf.scenario import HINT, Template
 
-SCENARIOS = ["append", "multi", "delete", "delete_append", "expire", "delsnap"]
+SCENARIOS = ["append", "multi", "delete", "delete_append", "expire", "delsnap", "readd"]
 STYLES = ["ctx", "explicit", "explicit_rollback"]
 BACKENDS = ["local", "s3", "s3_nocas"]
 LEASE = 60.0
@@ -56,6 +56,14 @@ def make_op(t: Any, scenario: str, style: str) -> Callable[[], Any]:
             tx.append_data(tables.rows([9001]))
         elif scenario == "expire":
             tx.expire_snapshots(seeds[-1].timestamp_ms)
+        elif scenario == "readd":
+            # append_files() of a pre-existing data file that OLDER retained snapshots still reference (a re-run
+            # job, a restore): the transaction did not write it and must never delete it
+            from datashard.data_structures import DataFile, FileFormat
+            e = t._verif_readd
+            tx.append_files([DataFile(file_path="/" + e["file_path"].lstrip("/"), file_format=FileFormat.PARQUET,
+                                      partition_values={}, record_count=e["record_count"],
+                                      file_size_in_bytes=e["file_size_in_bytes"], checksum=e.get("checksum"))])
 
     if scenario == "delsnap":
         return lambda: t.snapshot_manager.delete_snapshot(seeds[0].snapshot_id)
@@ -94,6 +102,8 @@ def expected_post(scenario: str, pre: Dict[str, Any]) -> Dict[str, Any]:
         return {"rows": rows, "nsnap": 1}
     if scenario == "delsnap":
         return {"rows": rows, "nsnap": n - 1}
+    if scenario == "readd":
+        return {"rows": sorted(rows + pre["readd_rows"]), "nsnap": n + 1}
     raise ValueError(scenario)
 
 
@@ -131,13 +141,25 @@ class Run:
             gp.set(_time, "sleep", vsleep)
             gp.set(lpm.S3LockProviderBase, "_start_heartbeat", lambda self_: None)
             blobs = inst.blobs()
+            readd_entry = None
+            if case["scenario"] == "readd":
+                # preparation (outside the fault window): the current snapshot drops its first file, older ones keep it
+                tv_ = reader.read_table(blobs)
+                readd_entry = tv_.current().entries[0]["data_file"]
+                t_ = ds.load_table(inst.table_path)
+                with t_.new_transaction() as tx_:
+                    tx_.delete_files([readd_entry["file_path"]])
+                    tx_.commit()
             tv = reader.read_table(blobs)
             cur = tv.current()
             pre = {"rows": tv.current_rows(), "nsnap": len(tv.snapshots), "pointer": tv.pointer,
                    "first_file_rows": reader.canon_rows(reader.read_rows(blobs, cur.files[0])),
                    "files": set(blobs.listing())}
+            if readd_entry is not None:
+                pre["readd_rows"] = reader.canon_rows(reader.read_rows(blobs, reader.norm(readd_entry["file_path"])))
             post = expected_post(case["scenario"], pre)
             t = ds.load_table(inst.table_path)
+            t._verif_readd = readd_entry
             op = make_op(t, case["scenario"], case["style"])
             ctx: Dict[str, Any] = {"fired": [], "written": []}
 
